@@ -316,14 +316,19 @@ CHECKS = {
             "comments, voices, tag stacks with classes and annotations, inline timestamps); written lines parse back to their runs and lie "
             "inside the tokenizer model's faithful domain; regions are defined before use in what is written and in any accepted input; "
             "LF/CRLF/CR equivalence; reader and writer total; reader schedule-independent and fault-reporting; nothing-to-write; writer "
-            "bytes independent of the iteration order of the style/region maps. "
+            "bytes independent of the iteration order of the style/region maps. READING of every rendering (C02_read_rendered, over "
+            "bytes, LF/CRLF/CR): BOM, header line with trailing text, timestamp map, STYLE block, region definitions, per cue a NOTE block, "
+            "identifier present / absent / not a number, each timestamp as mm:ss.ttt or with an hour field of any width, any white space "
+            "or none around the arrow, settings in any order with repeats after spaces or tabs, blank lines (empty or white space) "
+            "anywhere the grammar allows - the reader returns exactly what the document denotes; every side condition is a single "
+            "boolean check and each is shown necessary by a computed counter-example replayed on the library (suite vtt.needs). "
             "Tie: reader values, writer bytes and single-line parses compared with the extracted model on generated documents "
             "(regions, STYLE, timestamp map, comments, settings, tag stacks of depth 0..3, timestamps, voices x EOL/BOM/short time "
             "forms/ids/tabs), mutated documents and repository samples. Oracles: ground truth for the reader; an independent WebVTT "
             "decoder and the reader for the writer (consecutive numbering, regions defined before use).",
             "Rocq proof over a Gallina codec model + extracted-model differential correspondence + independent decoder",
-            "representability side conditions are those of repr_vdoc/repr_vline (Proofs/VttDoc.v, VttLine.v); reading tolerance beyond EOL "
-            "(short time forms, ids, tabs, header text) is decided by the ground-truth oracle and the correspondence; x/net/html tokenizer and the two regular "
+            "representability side conditions are those of repr_vdoc/repr_vline (Proofs/VttDoc.v, VttLine.v), each with its reason and a "
+            "computed counter-example in notes/C02.md / Proofs/VttNeeds.v; x/net/html tokenizer and the two regular "
             "expressions are hand-written matchers compared with the library inside the faithful domain html_simple/vtt_tag_simple "
             "(outside it only the Ok/Err/Panic class is compared)."),
 }
